@@ -32,12 +32,13 @@ TIERS = {
         "selftest": 24, "runs": {"C06": 1400, "C07": 520, "C10": 1400, "C17": 1200},
         "explore_wall": 50, "sweeps": 24, "coldproc": 12, "sweeps_wall": 240, "micropool_len": 3, "micropools": 1,
         "micropool_wall": 200, "minimise_s": 45,
-        "hash_runs": 500, "hash_seeds": 2,
+        "hash_runs": 500, "hash_seeds": 2, "interleave_runs": 160,
     },
     "thorough": {
         "selftest": 192, "runs": {"C06": 40000, "C07": 14000, "C10": 40000, "C17": 36000},
         "explore_wall": 720, "sweeps": 220, "coldproc": 64, "sweeps_wall": 600, "micropool_len": 4, "micropools": 2,
         "micropool_wall": 500, "minimise_s": 120, "hash_runs": 3000, "hash_seeds": 3,
+        "interleave_runs": 6000,
     },
 }
 
@@ -267,9 +268,20 @@ def main(argv=None):
             te = time.time()
             res = explore(pool, c.prop, c.tier, seeds, known=c.known_sigs, disabled=c.disabled,
                           deadline=time.monotonic() + c.T["explore_wall"], sample_first=4)
+            # ---- interleavings: histories in which an operation is issued from user code (the uf seam) in the
+            # middle of another build / evaluation; own seeds, so the histories above are what they always were
+            n_main = len(res)
+            il_seeds = [mix(c.seed, "interleave", c.prop, c.tier, i) for i in range(0 if a.runs else c.T["interleave_runs"])]
+            if il_seeds:
+                res_il = explore(pool, c.prop, c.tier, il_seeds, known=c.known_sigs, disabled=c.disabled,
+                                 deadline=time.monotonic() + c.T["explore_wall"], extra={"force": IL_FORCE},
+                                 sample_first=1, prefix="il")
+                print(f"interleave phase: runs={len(res_il)}", flush=True)
+                res = res + res_il
             agg = summarise(res)
             ev["exploration"] = {"agg": agg, "wall": time.time() - te, "requested": n_runs,
-                                 "first_seed": seeds[0], "last_seed": seeds[len(res) - 1] if res else None,
+                                 "interleave_runs": len(il_seeds),
+                                 "first_seed": seeds[0], "last_seed": seeds[n_main - 1] if n_main else None,
                                  "results": res}
             if agg["harness_errors"]:
                 raise HarnessError(f"{len(agg['harness_errors'])} runs failed in the harness: "
@@ -319,6 +331,7 @@ def main(argv=None):
     return 0
 
 
+IL_FORCE = {"interleave": True, "families_add": ["uf"], "cfg": {"with_faults": False}}
 H_FORCE = {"cfg": {"with_faults": False, "max_items": 4},
            "families_add": ["inter", "star", "power", "slash", "group", "catstr", "catcat", "box"]}
 
@@ -494,7 +507,7 @@ def write_evidence(c, ev, wall, fixed, known_lines):
         "ops_per_hour": int((expl.get("agg") or {}).get("ops", 0) / ewall * 3600),
         "seeds": {"VERIF_SEED": c.seed, "derivation": "run_seed_i = sha256(repr((VERIF_SEED, property, tier, i)))",
                   "first_run_seed": expl.get("first_seed"), "last_run_seed": expl.get("last_seed"),
-                  "requested_runs": expl.get("requested")},
+                  "requested_runs": expl.get("requested"), "interleave_phase_runs": expl.get("interleave_runs", 0)},
         "simulated_time": "not applicable: formulae has no clock, timer or deadline; logical steps are reported "
                           f"instead ({ops} ops)",
         "faults_fired": faults,
@@ -504,7 +517,10 @@ def write_evidence(c, ev, wall, fixed, known_lines):
                             "Exception-derived like MemoryError; natural.* = operation that fails on its own half-way "
                             "(unseen level under 'error', missing column, wrong dtype, user callable raising); "
                             "config.flip/invalid = global config changed / mis-set between operations; caller.* = "
-                            "caller refills the same DataFrame object / writes into a returned matrix",
+                            "caller refills the same DataFrame object / writes into a returned matrix; "
+                            "interleave.<A><<B> = operation B (build or evaluation, of the same or of another design) "
+                            "issued from the client function uf while formulae is in the middle of operation A "
+                            "(interleave phase, own seeds: sha256(repr((VERIF_SEED, 'interleave', property, tier, i))))",
         "faults_armed_not_fired": stats.get("fault.armed_not_fired", 0),
         "abort_sites_distinct": len(abort_sites),
         "abort_sites_top": dict(sorted(abort_sites.items(), key=lambda kv: -kv[1])[:12]),
